@@ -82,6 +82,7 @@ unsafe extern "Rust" fn __getrandom_v03_custom(dest: *mut u8, len: usize) -> Res
         }
         if s.record {
             s.log.push(DrawLog { len, ok: false, val: Vec::new() });
+            crate::payload::log(crate::payload::Spy::Draw { len, ok: false, val: Vec::new() });
         }
         return Err(getrandom::Error::new_custom(0x5eed));
     }
@@ -95,6 +96,7 @@ unsafe extern "Rust" fn __getrandom_v03_custom(dest: *mut u8, len: usize) -> Res
     }
     if s.record {
         let val = buf.to_vec();
+        crate::payload::log(crate::payload::Spy::Draw { len, ok: true, val: val.clone() });
         s.log.push(DrawLog { len, ok: true, val });
     }
     Ok(())
